@@ -855,7 +855,7 @@ func (c *Cursor) Backward(ctx context.Context) error {
 	}
 	pe := &c.path[len(c.path)-1]
 	node := pe.node
-	if node.Link[0] != nil {
+	if node.Link[pe.linkIndex] != nil {
 		node, err := c.m.load(ctx, pe.node.Link[pe.linkIndex])
 		if err != nil {
 			return fmt.Errorf("load: %w", err)
